@@ -5,7 +5,7 @@
      SQL: GetActiveEventTriggerRegisteredEvents, InsertFiredTrigger, DeleteFiredTriggersFromBlockNumber,
           DeleteEventTriggerRegisteredEventsFromBlockNumber (fired_triggers: ON DELETE CASCADE),
           UpdateEventBasedDecryptedFlags
-   Definitions only.  No fault streams here (C15 covers failures of the shared control flow).
+   Definitions only.  Fault streams as in Model/Syncer.v (one entry per RPC call, one per database operation).
 
    A block carries items in log order: registrations (EventTriggerRegistered events of the
    trigger registry) and plain logs (what triggers are matched against).  The matcher is a
@@ -105,38 +105,80 @@ Section TriggerSync.
   Definition popb (os : list bool) : bool * list bool :=
     match os with [] => (false, []) | o :: r => (o, r) end.
 
+  Fixpoint pop_n (n : nat) (fs : list fault) : bool * list fault :=   (* does any of the next n calls fail? *)
+    match n with
+    | O => (false, fs)
+    | S n' => let '(f, fs1) := pop fs in let '(bad, fs2) := pop_n n' fs1 in (is_fail f || bad, fs2)
+    end.
+
+  (* syncRange with failures.  RPC calls of one range: HeaderByNumber(e), then - in the iteration
+     order of the processor map, which does not matter because any failure abandons the range before
+     anything is stored - FilterLogs of the registration processor and one FilterLogs per active
+     trigger.  Database operations of one range: GetActiveEventTriggerRegisteredEvents, then the
+     transaction. *)
   Fixpoint trange_loop (nd : node titem) (st : tstate) (rs : list (Z * Z)) (orders : list bool)
-    : tstate * result * bool :=
+           (rpc db : list fault) : tstate * result * bool :=
     match rs with
     | [] => (st, Ok, false)
     | (s, e) :: rest =>
+        let '(fh, rpc) := pop rpc in
+        if is_fail fh then (st, Err, false) else
         match n_hash nd e with
         | None => (st, Err, false)
         | Some h =>
+            let '(fr, rpc) := pop rpc in                      (* registration processor: FilterLogs *)
+            let '(fa, db) := pop db in                        (* trigger processor: the active set *)
+            let '(ft, rpc) := pop_n (length (active st s)) rpc in  (*   and its FilterLogs calls *)
+            if is_fail fr || is_fail fa || ft then (st, Err, false) else
             let '(o, orders) := popb orders in
             match commit_trange o nd st s e h with
             | None => (st, Err, false)
-            | Some st' => let '(st2, r, _) := trange_loop nd st' rest orders in (st2, r, true)
+            | Some st' =>
+                let '(fc, db) := pop db in                    (* the BeginFunc transaction *)
+                match fc with
+                | NoFault => let '(st2, r, _) := trange_loop nd st' rest orders rpc db in (st2, r, true)
+                | Fail => (st, Err, false)
+                | FailApplied => (st', Err, true)
+                end
             end
         end
     end.
 
-  (* Sync(ctx, header) without failures; the last component says whether the database was written *)
-  Definition tsync (fl : flavour) (nd : node titem) (st : tstate) (orders : list bool) : tstate * result * bool :=
-    let '(st1, orders, wrote1) :=
-      match st_status (ts_core st) with
-      | None => (st, orders, false)
-      | Some (k, h) =>
-          let n := num_reorged fl k h nd in
-          if n <=? 0 then (st, orders, false)
-          else let '(o, orders) := popb orders in (trollback o st (k - n), orders, true)
+  (* the position from which a Sync on node nd continues, and whether it first rolls back *)
+  Definition reorg_target (fl : flavour) (nd : node titem) (st : tstate) : option Z :=
+    match st_status (ts_core st) with
+    | None => None
+    | Some (k, h) => let n := num_reorged fl k h nd in if n <=? 0 then None else Some (k - n)
+    end.
+
+  (* Sync(ctx, header); the last component says whether the database was written *)
+  Definition tsync (fl : flavour) (nd : node titem) (st : tstate) (orders : list bool)
+             (rpc db : list fault) : tstate * result * bool :=
+    let '(f1, db) := pop db in                                (* handlePotentialReorg: getSyncStatus *)
+    if is_fail f1 then (st, Err, false) else
+    let '(st1, orders, db, failed, wrote1) :=
+      match reorg_target fl nd st with
+      | None => (st, orders, db, false, false)
+      | Some to =>
+          let '(f2, db) := pop db in                          (* rollback: getSyncStatus *)
+          if is_fail f2 then (st, orders, db, true, false) else
+          let '(o, orders) := popb orders in
+          let '(f3, db) := pop db in                          (* rollback: the transaction *)
+          match f3 with
+          | NoFault => (trollback o st to, orders, db, false, true)
+          | Fail => (st, orders, db, true, false)
+          | FailApplied => (trollback o st to, orders, db, true, true)
+          end
       end in
+    if failed then (st1, Err, wrote1) else
+    let '(f4, db) := pop db in                                (* getSyncedUntil *)
+    if is_fail f4 then (st1, Err, wrote1) else
     let start := next_start fl (ts_core st1) in
     let e := n_number nd in
     if start >? e then (st1, Ok, wrote1) else
     match get_sync_ranges start e (fl_range fl) with
     | RangesOutOfFuel => (st1, OutOfFuel, wrote1)
-    | RangesDone rs => let '(st2, r, wrote2) := trange_loop nd st1 rs orders in (st2, r, wrote1 || wrote2)
+    | RangesDone rs => let '(st2, r, wrote2) := trange_loop nd st1 rs orders rpc db in (st2, r, wrote1 || wrote2)
     end.
 
   (* UpdateEventBasedDecryptedFlags for one key *)
@@ -169,48 +211,77 @@ Section TriggerSync.
   Definition should_fire (v : view titem) (a k : Z) (f : fired) : Prop :=
     exists r l, In r (rows_of t_admissible v a k) /\ first_fire v k r = Some l /\ f = fire_row r l.
 
-  (* D10 exclusion, on the chain: no trigger has a matching log within the r - 1 blocks after
-     its registration block (vacuous for r = 1) *)
+  (* a chain-level condition that implies the absence of the D10 shape for every range of at most
+     r blocks: no trigger has a matching log within the r - 1 blocks after its registration block
+     (vacuous for r = 1) *)
   Definition no_early_match (r : Z) (v : view titem) : Prop :=
     forall p u l, In p (rows_of t_admissible v 0 (head_number v)) -> pe_ev p = IReg u ->
                   In l (logs_of v 0 (head_number v)) -> window_match u (pe_block p) l = true ->
                   pe_block p + r <= pe_block l.
 
+  (* The exact D10 shape: a range [s, e] is clear when no trigger registered inside it has a matching
+     log later in the same range (first_fire up to e looks only at logs after the registration block) *)
+  Definition range_clear (v : view titem) (s e : Z) : Prop :=
+    forall p, In p (rows_of t_admissible v s e) -> first_fire v e p = None.
+
+  (* the ranges a Sync on view v goes through from state st (all of them unless a failure stops it) *)
+  Definition sync_ranges_of (fl : flavour) (v : view titem) (st : tstate) : list (Z * Z) :=
+    let start := match reorg_target fl (node_of_view v) st with
+                 | Some to => to + 1
+                 | None => next_start fl (ts_core st)
+                 end in
+    match get_sync_ranges start (head_number v) (fl_range fl) with RangesDone rs => rs | RangesOutOfFuel => [] end.
+
+  Definition d10_free (fl : flavour) (v : view titem) (st : tstate) : Prop :=
+    forall s e, In (s, e) (sync_ranges_of fl v st) -> range_clear v s e.
+
   (* histories *)
-  Inductive top := TSync (v : view titem) (orders : list bool) | TDecrypt (k : ukey).
+  Inductive top :=
+  | TSync (v : view titem) (orders : list bool) (rpc db : list fault)
+  | TDecrypt (k : ukey).
 
   Record tgstate := mktg { tg_st : tstate; tg_view : view titem }.
   Definition tginit : tgstate := mktg tinit [].
 
   Definition tgstep (fl : flavour) (g : tgstate) (op : top) : tgstate :=
     match op with
-    | TSync v orders =>
-        let '(st', _, wrote) := tsync fl (node_of_view v) (tg_st g) orders in
+    | TSync v orders rpc db =>
+        let '(st', _, wrote) := tsync fl (node_of_view v) (tg_st g) orders rpc db in
         mktg st' (if wrote then v else tg_view g)
     | TDecrypt k => mktg (tdecrypt (tg_st g) k) (tg_view g)
     end.
   Definition tgrun (fl : flavour) (ops : list top) : tgstate := fold_left (tgstep fl) ops tginit.
 
   Definition top_views (ops : list top) : list (view titem) :=
-    flat_map (fun op => match op with TSync v _ => [v] | TDecrypt _ => [] end) ops.
+    flat_map (fun op => match op with TSync v _ _ _ => [v] | TDecrypt _ => [] end) ops.
 
   Fixpoint theads_ok (fl : flavour) (g : tgstate) (ops : list top) : Prop :=
     match ops with
     | [] => True
     | op :: rest =>
         match op with
-        | TSync v _ => head_ok fl (mkg (ts_core (tg_st g)) (tg_view g)) v
+        | TSync v _ _ _ => head_ok fl (mkg (ts_core (tg_st g)) (tg_view g)) v
         | TDecrypt _ => True
         end /\ theads_ok fl (tgstep fl g op) rest
     end.
 
+  (* no Sync of the history goes through a range that has the D10 shape *)
+  Fixpoint td10_free (fl : flavour) (g : tgstate) (ops : list top) : Prop :=
+    match ops with
+    | [] => True
+    | op :: rest =>
+        match op with
+        | TSync v _ _ _ => d10_free fl v (tg_st g)
+        | TDecrypt _ => True
+        end /\ td10_free fl (tgstep fl g op) rest
+    end.
+
   (* the views of a history: each is a well-formed view (non-empty, non-empty hashes, keys unique,
      bounded head), has no admissible registration below the first synced block (D9 exclusion),
-     satisfies the D10 exclusion for the flavour's range limit, and hashes identify blocks *)
+     and hashes identify blocks *)
   Definition tuniverse_ok (fl : flavour) (U : list (view titem)) : Prop :=
     (forall u, In u U -> view_ok t_key t_admissible fl u /\
-                         quiet_before t_admissible u (fl_first_start fl) /\
-                         no_early_match (fl_range fl) u) /\
+                         quiet_before t_admissible u (fl_first_start fl)) /\
     (forall u w, In u U -> In w U -> hash_determines u w).
 
 End TriggerSync.
@@ -223,6 +294,6 @@ Arguments log_matches {LogT}. Arguments fire_of {LogT}. Arguments fires_of_trigg
 Arguments insert_fired {LogT}. Arguments insert_all {LogT}. Arguments commit_trange {LogT}.
 Arguments trollback {LogT}. Arguments trange_loop {LogT}. Arguments tsync {LogT}. Arguments tdecrypt {LogT}.
 Arguments window_match {LogT}. Arguments first_fire {LogT}. Arguments fire_row {LogT}. Arguments should_fire {LogT}.
-Arguments no_early_match {LogT}. Arguments TSync {LogT}. Arguments TDecrypt {LogT}.
+Arguments no_early_match {LogT}. Arguments range_clear {LogT}. Arguments sync_ranges_of {LogT}. Arguments d10_free {LogT}. Arguments td10_free {LogT}. Arguments reorg_target {LogT}. Arguments TSync {LogT}. Arguments TDecrypt {LogT}.
 Arguments mktg {LogT}. Arguments tg_st {LogT}. Arguments tg_view {LogT}. Arguments tginit {LogT}.
 Arguments tuniverse_ok {LogT}. Arguments tgstep {LogT}. Arguments tgrun {LogT}. Arguments top_views {LogT}. Arguments theads_ok {LogT}.
